@@ -17,3 +17,6 @@ import TvUring.Props.C18
 #print axioms TV.C18.crash
 #print axioms TV.C18.gone_ring_inert
 #print axioms TV.C18.goneOut_no_cqe
+#print axioms TV.C18.host_rings_ok
+#print axioms TV.C18.drain_all
+#print axioms TV.C18.sync_sees_all
